@@ -384,7 +384,7 @@ class StrTable(Section):
             p = c.find(b"\x00", index)
             if p < 0:
                 log.warning("Missing trailing 0 for string [%s]" % c)  # XXX
-                p = len(c) - index
+                p = len(c)
             self.res[index] = c[index:p]
             # print q, c[:p]
             index = p + 1
